@@ -170,18 +170,89 @@ func inlineText(content []inlineXML) string {
 	return sb.String()
 }
 
+// decodeChildren walks the children of an element in document order up to its
+// end tag. Children accepted by group only group further children and are
+// entered; every other child is handed to child, which decodes or skips it.
+func decodeChildren(d *xml.Decoder, group func(local string) bool, child func(el xml.StartElement) error) error {
+	depth := 0
+	for {
+		tok, err := d.Token()
+		if err != nil {
+			return err
+		}
+		switch el := tok.(type) {
+		case xml.StartElement:
+			if group != nil && group(el.Name.Local) {
+				depth++
+				continue
+			}
+			if err := child(el); err != nil {
+				return err
+			}
+		case xml.EndElement:
+			if depth == 0 {
+				return nil
+			}
+			depth--
+		}
+	}
+}
+
 // listXML represents a list (<text:list>).
 type listXML struct {
 	XMLName   xml.Name      `xml:"list"`
 	StyleName string        `xml:"style-name,attr"`
-	Items     []listItemXML `xml:"list-item"`
+	Items     []listItemXML `xml:"list-item"` // including the optional <text:list-header>
+}
+
+// UnmarshalXML decodes a list; a list header is an item without a label.
+func (l *listXML) UnmarshalXML(d *xml.Decoder, start xml.StartElement) error {
+	l.XMLName = start.Name
+	l.StyleName = attrValue(start, "style-name")
+	return decodeChildren(d, nil, func(el xml.StartElement) error {
+		switch el.Name.Local {
+		case "list-item", "list-header":
+			var item listItemXML
+			if err := d.DecodeElement(&item, &el); err != nil {
+				return err
+			}
+			l.Items = append(l.Items, item)
+			return nil
+		}
+		return d.Skip()
+	})
 }
 
 // listItemXML represents a list item (<text:list-item>).
 type listItemXML struct {
 	XMLName    xml.Name       `xml:"list-item"`
-	Paragraphs []paragraphXML `xml:"p"`
+	Paragraphs []paragraphXML `xml:"p"`    // paragraphs and headings (numbered headings are list items)
 	SubLists   []listXML      `xml:"list"` // Nested lists
+}
+
+// UnmarshalXML decodes a list item: its paragraphs and headings, and its
+// nested lists.
+func (li *listItemXML) UnmarshalXML(d *xml.Decoder, start xml.StartElement) error {
+	li.XMLName = start.Name
+	return decodeChildren(d, nil, func(el xml.StartElement) error {
+		switch el.Name.Local {
+		case "p", "h":
+			var p paragraphXML
+			if err := d.DecodeElement(&p, &el); err != nil {
+				return err
+			}
+			li.Paragraphs = append(li.Paragraphs, p)
+			return nil
+		case "list":
+			var sub listXML
+			if err := d.DecodeElement(&sub, &el); err != nil {
+				return err
+			}
+			li.SubLists = append(li.SubLists, sub)
+			return nil
+		}
+		return d.Skip()
+	})
 }
 
 // tableXML represents a table (<table:table>).
@@ -191,6 +262,42 @@ type tableXML struct {
 	StyleName string        `xml:"style-name,attr"`
 	Columns   []tableColXML `xml:"table-column"`
 	Rows      []tableRowXML `xml:"table-row"`
+}
+
+// UnmarshalXML decodes a table, collecting its columns and rows in document
+// order, including those grouped by <table:table-header-rows>,
+// <table:table-rows>, <table:table-row-group> and their column counterparts.
+func (t *tableXML) UnmarshalXML(d *xml.Decoder, start xml.StartElement) error {
+	t.XMLName = start.Name
+	t.Name = attrValue(start, "name")
+	t.StyleName = attrValue(start, "style-name")
+	group := func(local string) bool {
+		switch local {
+		case "table-header-rows", "table-rows", "table-row-group",
+			"table-header-columns", "table-columns", "table-column-group":
+			return true
+		}
+		return false
+	}
+	return decodeChildren(d, group, func(el xml.StartElement) error {
+		switch el.Name.Local {
+		case "table-column":
+			var col tableColXML
+			if err := d.DecodeElement(&col, &el); err != nil {
+				return err
+			}
+			t.Columns = append(t.Columns, col)
+			return nil
+		case "table-row":
+			var row tableRowXML
+			if err := d.DecodeElement(&row, &el); err != nil {
+				return err
+			}
+			t.Rows = append(t.Rows, row)
+			return nil
+		}
+		return d.Skip()
+	})
 }
 
 // tableColXML represents a table column definition.
@@ -214,6 +321,36 @@ type tableCellXML struct {
 	NumberColumnsSpanned string         `xml:"number-columns-spanned,attr"`
 	NumberRowsSpanned    string         `xml:"number-rows-spanned,attr"`
 	Paragraphs           []paragraphXML `xml:"p"`
+}
+
+// UnmarshalXML decodes a table cell, collecting the paragraphs of its content
+// in document order: paragraphs and headings, the paragraphs of list items,
+// and the paragraphs of a table nested in the cell.
+func (c *tableCellXML) UnmarshalXML(d *xml.Decoder, start xml.StartElement) error {
+	c.XMLName = start.Name
+	c.StyleName = attrValue(start, "style-name")
+	c.NumberColumnsSpanned = attrValue(start, "number-columns-spanned")
+	c.NumberRowsSpanned = attrValue(start, "number-rows-spanned")
+	group := func(local string) bool {
+		switch local {
+		case "list", "list-item", "list-header", "section",
+			"table", "table-header-rows", "table-rows", "table-row-group", "table-row", "table-cell":
+			return true
+		}
+		return false
+	}
+	return decodeChildren(d, group, func(el xml.StartElement) error {
+		switch el.Name.Local {
+		case "p", "h":
+			var p paragraphXML
+			if err := d.DecodeElement(&p, &el); err != nil {
+				return err
+			}
+			c.Paragraphs = append(c.Paragraphs, p)
+			return nil
+		}
+		return d.Skip()
+	})
 }
 
 // coveredCellXML represents a covered (merged) cell (<table:covered-table-cell>).
